@@ -169,8 +169,8 @@ def run_params(case):
     W.set_ctx(W.Ctx())
     violations = []
     try:
-        with warnings.catch_warnings():
-            warnings.simplefilter('ignore')
+        with warnings.catch_warnings(record=True):
+            warnings.simplefilter('always')    # recorded, not printed; never 'ignore': dependencies inspect warnings
             ds = build_param_instance(case['kind'], r)
             msg = compare_copy(ds)
             if msg is None:
@@ -201,8 +201,8 @@ def run_created_early(case):
     outs = {}
     violations = []
     try:
-        with warnings.catch_warnings():
-            warnings.simplefilter('ignore')
+        with warnings.catch_warnings(record=True):
+            warnings.simplefilter('always')    # recorded, not printed; never 'ignore': dependencies inspect warnings
             for name in case['variants']:
                 base = W.build(desc)
                 if name == 'A':
@@ -373,8 +373,8 @@ def _same_value(a, b):
 def compare_copy(ds):
     """vars() of every stage and of its copy() agree on every parameter."""
     import warnings
-    with warnings.catch_warnings():
-        warnings.simplefilter('ignore')
+    with warnings.catch_warnings(record=True):
+        warnings.simplefilter('always')    # recorded, not printed; never 'ignore': dependencies inspect warnings
         cp = ds.copy()
     a, b = _stage_chain(ds), _stage_chain(cp)
     if [type(x) for x in a] != [type(x) for x in b]:
@@ -412,8 +412,8 @@ def run(case):
     outs = {}
     try:
         import warnings
-        with warnings.catch_warnings():
-            warnings.simplefilter('ignore')
+        with warnings.catch_warnings(record=True):
+            warnings.simplefilter('always')    # recorded, not printed; never 'ignore': dependencies inspect warnings
             vs = {}
             gbase = None
             for name in case['variants']:
